@@ -62,6 +62,7 @@ pub fn lru(args: &[String]) -> ! {
     let mut rep = Report::default();
     for rec in &recs {
         rep.evaluations += 1;
+        inflight(rec);
         let cap = rec["cap"].as_u64().unwrap() as usize;
         let h = rec["h"].as_array().unwrap();
         let exts = rec["n"].as_array().unwrap();
@@ -159,9 +160,13 @@ pub fn coalesce(args: &[String]) -> ! {
     let iters: u64 = args[1].parse().unwrap();
     let policy = args[2].clone();
     let timeout: u64 = args[4].parse().unwrap();
+    inflight(&json!({"coalesce_stress": {"threads": nthreads, "iters": iters, "policy": policy, "slots": args.get(5)}}));
     let seq = Arc::new(AtomicU64::new(1));
     let log = Arc::new(Mutex::new(Vec::<Value>::new()));
-    let q = Arc::new(WorkCoalescingQueue::new(Core { policy: policy.clone(), seq: Arc::clone(&seq), log: Arc::clone(&log) }));
+    // optional 6th argument: ring size of the wait list (0 = the default of 65536)
+    let slots: usize = args.get(5).and_then(|s| s.parse().ok()).unwrap_or(0);
+    let core = Core { policy: policy.clone(), seq: Arc::clone(&seq), log: Arc::clone(&log) };
+    let q = Arc::new(if slots == 0 { WorkCoalescingQueue::new(core) } else { WorkCoalescingQueue::verif_with_slots(core, slots) });
     let finished = Arc::new(AtomicU64::new(0));
     let mut handles = vec![];
     for t in 0..nthreads {
@@ -193,7 +198,7 @@ pub fn coalesce(args: &[String]) -> ! {
     let mut events = log.lock().unwrap().clone();
     events.sort_by_key(|e| e["n"].as_u64().unwrap());
     let mut f = std::io::BufWriter::new(std::fs::File::create(&args[3]).unwrap());
-    writeln!(f, "{}", json!({"n": 0, "ev": "start", "threads": nthreads, "iters": iters, "policy": policy})).unwrap();
+    writeln!(f, "{}", json!({"n": 0, "ev": "start", "threads": nthreads, "iters": iters, "policy": policy, "slots": slots})).unwrap();
     for e in &events {
         writeln!(f, "{e}").unwrap();
     }
